@@ -445,7 +445,80 @@ def signature_helper_obligations(chk):
                z3.BoolVal(not bad), {"bad": bad}))
 
 
+def composed_predicates(chk):
+    """Predicates defined *from other predicates*: each is executed for an arbitrary object with the predicates it consults
+    uninterpreted (their own clauses are elsewhere in this check) and proved to be exactly the documented combination -
+    so a dropped disjunct, a swapped connective or a test of the wrong sub-predicate fails a named clause."""
+    from props.uf_world import uf
+    I = make_interp()
+    P = {}
+
+    def pred(name):
+        if name not in P:
+            P[name] = z3.Function("P_" + name, Val, BoolS)
+            I.stubs[f"{INSP}.{name}"] = Stub(f"inspection.{name}", (lambda n: lambda I, p, a, k: SBool(P[n](_argval(I, a[0]))))(name), f"{name}(x): its own clause in this check")
+        return P[name]
+
+    def _argval(I, a):
+        return cls_val(a.t) if isinstance(a, SCls) else to_val(a)
+    origin_as_val = lambda o: cls_val(origin_cls(o))
+    rs = z3.Function("resolve_supertype", Val, Val)
+    I.stubs[f"{INSP}.resolve_supertype"] = Stub("inspection.resolve_supertype", lambda I, p, a, k: SV(rs(to_val(a[0]))), "resolve_supertype(x): x with NewType layers removed (C11)")
+    cases = {
+        "isstructuredtype": (("isfixedtupletype", "isnamedtuple", "istypeddict", "isstdlibsubtype", "isuniontype", "isliteral"),
+                             lambda o: z3.Or(P["isfixedtupletype"](o), P["isnamedtuple"](o), P["istypeddict"](o),
+                                             z3.And(z3.Not(P["isstdlibsubtype"](origin_as_val(o))), z3.Not(P["isuniontype"](o)), z3.Not(P["isliteral"](o)))),
+                             "a-fixed-tuple-a-named-tuple-a-TypedDict-or-any-non-stdlib-class-that-is-neither-a-union-nor-a-literal"),
+        "issubscriptedcollectiontype": (("iscollectiontype", "issubscriptedgeneric"),
+                                        lambda o: z3.And(P["iscollectiontype"](o), P["issubscriptedgeneric"](o)),
+                                        "a-collection-type-that-is-subscripted"),
+    }
+    for name, (subs, spec, clause) in cases.items():
+        for s_ in subs:
+            pred(s_)
+        func = f"{INSP}.{name}"
+
+        def mk(I, path):
+            obj = path.fresh("obj")
+            return [SV(obj)], {}, {"obj": obj}
+        for pi, (path, out, obls, writes, cur) in enumerate(I.run_function(func, mk)):
+            goal = to_bool_term(out.value) == spec(cur["obj"]) if out.kind == "ret" else z3.BoolVal(False)
+            chk.add(Ob(func, clause, f"p{pi}", path.hyps + class_axioms(), goal, {"outcome": out.kind, "why": str(out.value)[:120] if out.kind != "ret" else ""}))
+        for s_ in subs:
+            I.stubs.pop(f"{INSP}.{s_}", None)
+            P.pop(s_, None)
+    # the table predicates: subclass of a documented builtin / stdlib type (after NewType resolution), never raising
+    from typelib.py import inspection as _insp
+    for name, table_name in (("isbuiltinsubtype", "BUILTIN_TYPES_TUPLE"), ("isstdlibsubtype", "STDLIB_TYPES_TUPLE")):
+        func = f"{INSP}.{name}"
+        table = getattr(_insp, table_name)
+
+        def mk2(I, path, table=table):
+            for b in table:
+                cls_const(b)
+            obj = path.fresh("obj")
+            return [SV(obj)], {}, {"obj": obj}
+        for pi, (path, out, obls, writes, cur) in enumerate(I.run_function(func, mk2)):
+            o = rs(cur["obj"])
+            spec = z3.And(is_class(o), z3.Or(*[sub(as_cls(o), cls_const(b)) for b in table]))
+            goal = to_bool_term(out.value) == spec if out.kind == "ret" else z3.BoolVal(False)
+            chk.add(Ob(func, "a-class-that-after-NewType-resolution-is-a-subclass-of-a-type-of-the-documented-table-never-raising", f"p{pi}",
+                       path.hyps + class_axioms(), goal, {"outcome": out.kind, "table": table_name}))
+    # _safe_issubclass: issubclass for classes, False (never TypeError) for anything else
+    func = f"{INSP}._safe_issubclass"
+
+    def mk3(I, path):
+        obj, base = path.fresh("obj"), path.fresh("base", Cls)
+        return [SV(obj), SCls(base)], {}, {"obj": obj, "base": base}
+    for pi, (path, out, obls, writes, cur) in enumerate(I.run_function(func, mk3)):
+        spec = z3.And(is_class(cur["obj"]), sub(as_cls(cur["obj"]), cur["base"]))
+        goal = to_bool_term(out.value) == spec if out.kind == "ret" else z3.BoolVal(False)
+        chk.add(Ob(func, "issubclass-for-classes-False-for-everything-else-never-raising", f"p{pi}", path.hyps + class_axioms(), goal, {"outcome": out.kind}))
+    chk.trusted.update(I.assumed_used)
+
+
 def obligations(chk):          # noqa: F811
+    composed_predicates(chk)
     signature_helper_obligations(chk)
     instance_predicate_obligations(chk)
     class_predicates(chk)
